@@ -95,6 +95,8 @@ class TreeGen:
             v = rng.choice([0.0, 1.0, -1.0, 0.5, 72.0, 1.1, 3.4e38, -3.4e38, 1e-40, float("inf"), rng.uniform(-1000, 1000)])
             return struct.unpack("<f", struct.pack("<f", v))[0] if n == 4 else v
         if t == "str":
+            if sec_name == "DataHeader" and name == "filename":
+                return "base"            # a save sets this field to the output stem; round trips are written to stem `base`
             s = rng.choice(STRINGS)
             if any(ord(c) > 127 for c in s):
                 self.stats["multibyte_str"] += 1
